@@ -448,8 +448,24 @@ class SelLawsEngine(VectorEngine):
                 s = rng.choice((".g", ".h", ":active", "[z]"))
                 if s not in m:
                     m.insert(e, s)
-            else:
+            elif rng.random() < 0.5:
                 m = self.rnd_complex(rng, 1, 2, pe=False) + [rng.choice(("sp", ">"))] + m
+            else:
+                # add ancestors at a descendant combinator; often a copy of the compound on its left (a repeated name)
+                sps = [i for i, t in enumerate(m) if t == "sp" and self._depth(m, i) == 0]
+                if sps:
+                    i = rng.choice(sps)
+                    j = i
+                    while j > 0 and not (m[j - 1] in ("sp", ">", "+", "~") and self._depth(m, j - 1) == 0):
+                        j -= 1
+                    left = m[j:i]
+                    mid = list(left) if rng.random() < 0.6 else self.rnd_compound(rng, 1, pe=False)
+                    if rng.random() < 0.5:
+                        mid = self.rnd_compound(rng, 1, pe=False) + [rng.choice(("sp", ">"))] + mid
+                    if any(t in ("::before", "::after") for t in mid):
+                        mid = [t for t in mid if t not in ("::before", "::after")] or ["e"]
+                    c1, c2 = rng.choice((("sp", "sp"), (">", "sp"), ("sp", ">")))
+                    m = m[:i] + [c1] + mid + [c2] + m[i + 1:]
         return m
 
     @staticmethod
@@ -476,15 +492,17 @@ class C23(SelLawsEngine):
     q_cfg = {"quick": "MC_SelLaws_C23_q.cfg", "thorough": "MC_SelLaws_C23_t.cfg"}
     rule = ("Universe of 192 (thorough: 268) selector lists defined in MC_SelLaws.tla (26 compounds over type, universal, class, id, attribute, "
             "pseudo-class, pseudo-element, :is()/:not() selectors; all two-compound complex selectors over a core set of 6 (7) compounds x 4 "
-            "combinators; three- and four-compound ones; lists of two). TLC emits every ordered pair, every one-step Derive pair (adding a simple selector to a compound, prepending an "
-            "ancestor/parent prefix), every list member, in text form and in the list form the selector functions return; rsass answers "
+            "combinators; three- and four-compound ones; lists of two; plus a second table block of 35 (55) selectors of up to 5 compounds with "
+            "repeated names: an explicit combinator above a descendant combinator with ancestors inserted at the latter). TLC emits every ordered pair, every one-step Derive pair (adding a simple selector to a compound, prepending an "
+            "ancestor/parent prefix, inserting ancestors - also a copy of the compound on the left - at a descendant combinator), every list member, in text form and in the list form the selector functions return; rsass answers "
             "selector.is-superselector for each; Trace_SelLaws.tla (SuperMonitor) checks reflexivity, monotonicity and, from the observed table, "
             "every triple for transitivity. An evaluation = one answered query; non-trivial = the two selectors differ; distinct = distinct "
             "(a, b, forms). Flow B: seeded random selector lists of up to 4 compounds x 3 members with several-step derivations.")
     assumptions = ["pseudo-elements are not simple selectors (Selectors Level 4): they are never what Derive adds, and nothing is added behind one",
                    "compounds are written in the order the pinned tree stores them (element, id, classes, attributes, pseudos), so that the "
                    "open finding compound_reordered of C19 does not interfere",
-                   "ancestors/parents are added in front of a complex selector (not between its compounds)",
+                   "ancestors/parents are added in front of a complex selector or at one of its descendant combinators (`X Y` -> `X Z Y`, `X > Z Y`, "
+                   "`X Z > Y`); an explicit combinator of the superselector keeps its two compounds adjacent",
                    "a compound carries at most one type selector and one id (of `#i#j` the pinned tree keeps `#j`: finding second_id_replaces_first of C25)"]
 
     def random_queries(self, ctx, n):
